@@ -211,7 +211,7 @@ pub fn step_case<
 
 /// Public-API history reaching the `[2, 1]`, offset 1 state and dropping frames: the reported
 /// length must equal what can still be read (bytes symbolic, history concrete).
-/// @tier thorough @timeout 3000
+/// @tier experimental @timeout 3000
 /// @bounds history write(2) flush write(1) consume(1) clear_but_last read*, all byte values
 /// @encodes common::IOQueue::write, common::IOQueue::flush, common::IOQueue::consume, common::IOQueue::clear_but_last, common::IOQueue::read
 #[cfg_attr(kani, kani::proof)]
